@@ -80,6 +80,7 @@ type c43Run struct {
 	steps   []c43Step
 	mark    int // env.Ops consumed so far
 	bites   int
+	subFails int
 	errs    int
 }
 
@@ -211,6 +212,12 @@ func (c *c43Run) stats(cl *Client, ch int) {
 	c.steps = append(c.steps, c43Step{Kind: "stats", NodeS: nodeS, ReplyS: replyS})
 }
 
+func c43Subscribe(cl *Client, ch string) bool {
+	rw := testReplyWriterWrapper()
+	err := cl.handleSubscribe(&protocol.SubscribeRequest{Channel: ch}, &protocol.Command{Id: 3}, time.Now(), rw.rw)
+	return err == nil && len(rw.replies) == 1 && rw.replies[0].Error == nil
+}
+
 func c43Setup(n *Node) {
 	n.OnConnect(func(client *Client) {
 		client.OnSubscribe(func(e SubscribeEvent, cb SubscribeCallback) {
@@ -272,6 +279,7 @@ func TestVerifC43(t *testing.T) {
 		totals["presence_cmds"] += np
 		totals["clamp_bites"] += run.bites
 		totals["error_replies"] += run.errs
+		totals["subscribe_failures"] += run.subFails
 		xs := make([]string, len(run.steps))
 		for k, s := range run.steps {
 			xs[k] = c43CoqStep(s)
@@ -322,8 +330,11 @@ func c43RandomCase(t testing.TB, r *rand.Rand, run *c43Run, maxl int) {
 			run.history(run.clients[cl], ch, g.Since, limit, g.Rev, maxl)
 		case x < 88:
 			if !subscribed[[2]int{cl, ch}] {
-				subscribeClientV2(t, run.clients[cl], c17ChName(ch))
-				subscribed[[2]int{cl, ch}] = true
+				if c43Subscribe(run.clients[cl], c17ChName(ch)) {
+					subscribed[[2]int{cl, ch}] = true
+				} else {
+					run.subFails++
+				}
 			} else {
 				run.clients[cl].Unsubscribe(c17ChName(ch))
 				delete(subscribed, [2]int{cl, ch})
